@@ -1296,6 +1296,11 @@ func (schema *Schema) visitEnumOperation(settings *schemaValidationSettings, val
 				if v == float64(c) {
 					return
 				}
+			case int32:
+				// what the parameter decoder yields for format int32
+				if v == float64(c) {
+					return
+				}
 			default:
 				if reflect.DeepEqual(v, jsonNumbersToFloat64(value)) {
 					return
